@@ -95,6 +95,18 @@ def guards():
     add("FieldKeys numbered by occurrence count", mc("MC_Keys", dict(Alphabet='{"a","b","a_2"}', MaxFields=3, Numbering='"count"'), ["KeysRefine"]), "KeysRefine")
     add("BufWriter files closed explicitly", mc("BufWriter", dict(NWrites=3, Cap=4, DevFailsAt=1, CloseMode='"explicit"'), ["LossIsReported"], spec="Spec"), None)
     add("BufWriter file left to its finaliser", mc("BufWriter", dict(NWrites=3, Cap=4, DevFailsAt=1, CloseMode='"finaliser"'), ["LossIsReported"], spec="Spec"), "LossIsReported")
+    add("PathRes path opened as typed (the code)", mc("PathRes", dict(Canon='"none"'), ["SpellingsAreEquivalent", "OpensWhatWasNamed"]), None)
+    add("PathRes path canonicalised with abspath before opening", mc("PathRes", dict(Canon='"abspath"'), ["OpensWhatWasNamed"]), "OpensWhatWasNamed")
+    pe = dict(Dirs='{"a","b"}', MaxSteps=4)
+    add("PoolEnv a pool per call (the code)", mc("PoolEnv", dict(pe, PoolPolicy='"per-call"'), ["DataOfTheNamedPlotfile"], spec="Spec"), None)
+    add("PoolEnv one pool kept for the life of the process", mc("PoolEnv", dict(pe, PoolPolicy='"persistent"'), ["DataOfTheNamedPlotfile"], spec="Spec"), "DataOfTheNamedPlotfile")
+    rc = dict(MaxCooks=3)
+    add("RecipeCache file executed, function sent by value (the code)", mc("RecipeCache", dict(rc, ImportPolicy='"exec-file"', Transport='"by-value"'), ["EveryCookEvaluatesItsOwnFile"]), None)
+    add("RecipeCache file imported as a module", mc("RecipeCache", dict(rc, ImportPolicy='"import-module"', Transport='"by-value"'), ["EveryCookEvaluatesItsOwnFile"]), "EveryCookEvaluatesItsOwnFile")
+    add("RecipeCache function sent by name to a cached pool", mc("RecipeCache", dict(rc, ImportPolicy='"exec-file"', Transport='"by-name"'), ["EveryCookEvaluatesItsOwnFile"]), "EveryCookEvaluatesItsOwnFile")
+    add("MenuOpts one test per display (the code)", mc("MenuOpts", dict(Dispatch='"independent"'), ["EveryDisplayShown"]), None)
+    add("MenuOpts if / elif chain", mc("MenuOpts", dict(Dispatch='"first-only"'), ["EveryDisplayShown"]), "EveryDisplayShown")
+    add("BufWriter unbuffered file, count ignored", mc("BufWriter", dict(NWrites=5, Cap=2, DevFailsAt=3, CloseMode='"raw-unchecked"'), ["LossIsReported"], spec="Spec"), "LossIsReported")
     add("PoolLife pool kept referenced", mc("PoolLife", dict(N=2, KeepRef="TRUE"), ["NoWedge"], props=["CallerFinishes"], spec="Spec"), None)
     add("PoolLife empty job, pool dropped", mc("PoolLife", dict(N=0, KeepRef="FALSE"), ["NoWedge"], spec="Spec"), "NoWedge")
     add("PoolLife workers faster than the task handler", mc("PoolLife", dict(N=2, KeepRef="FALSE"), ["NoWedge"], spec="Spec"), "NoWedge")
